@@ -15,6 +15,10 @@ from .pool import Pool, Crash, InternalError, NPROC
 VERIF = stage_mod.VERIF
 PROPS = ['C%02d' % i for i in range(1, 21)]
 KNOWN_FILE = os.path.join(VERIF, 'KNOWN_FINDINGS.txt')
+# Evidence and replay files go to /verif unless VERIF_OUT redirects them (used
+# only when a check is pointed at a scratch tree with VERIF_REPO, so that such
+# a run never overwrites the evidence of /repo itself).
+OUT = os.environ.get('VERIF_OUT') or VERIF
 
 
 def load_known():
@@ -147,7 +151,7 @@ def finish(ctx, level, explanation, rule, trusted=None):
             lines.append('KNOWN-FINDING: property=%s %s (sig=%s, %d cases this run)'
                          % (ctx.pid, known[sig], sig, len(vs)))
             continue
-        d = os.path.join(VERIF, 'replays', ctx.pid)
+        d = os.path.join(OUT, 'replays', ctx.pid)
         os.makedirs(d, exist_ok=True)
         path = os.path.join(d, _digest([sig, v['case']]) + '.json')
         with open(path, 'w') as f:
@@ -179,12 +183,12 @@ def finish(ctx, level, explanation, rule, trusted=None):
           'wall_s': round(wall, 2), 'violations': len(unknown),
           'known_findings_seen': len(lines),
           'tree_digest': os.path.basename(ctx.stage)}
-    os.makedirs(os.path.join(VERIF, 'evidence'), exist_ok=True)
-    tmp = os.path.join(VERIF, 'evidence', ctx.pid + '.json.tmp%d' % os.getpid())
+    os.makedirs(os.path.join(OUT, 'evidence'), exist_ok=True)
+    tmp = os.path.join(OUT, 'evidence', ctx.pid + '.json.tmp%d' % os.getpid())
     with open(tmp, 'w') as f:
         json.dump(ev, f, indent=1, default=repr)
         f.write('\n')
-    os.replace(tmp, os.path.join(VERIF, 'evidence', ctx.pid + '.json'))
+    os.replace(tmp, os.path.join(OUT, 'evidence', ctx.pid + '.json'))
     for l in lines:
         print(l)
     for sig, path, v in unknown:
